@@ -89,6 +89,7 @@ sys.path.insert(0, __SRC__)
 from inline_snapshot._code_repr import code_repr
 from enum import Enum
 from collections import namedtuple
+ROW = namedtuple("ROW", "k v")
 class Color(Enum):
     red = 1
     green = 2
@@ -126,7 +127,10 @@ def gen_set_exprs(rng, n):
         el = list(dict.fromkeys(el))
         order2 = list(el)
         rng.shuffle(order2)
-        wrap = rng.choice(["set([{}])", "frozenset([{}])", "[set([{}]), 1]", "{{'k': set([{}])}}", "{{'a': 1, 'b': frozenset([{}])}}"])
+        wrap = rng.choice(["set([{}])", "frozenset([{}])", "[set([{}]), 1]", "{{'k': set([{}])}}", "{{'a': 1, 'b': frozenset([{}])}}",
+                           # one-element tuples, namedtuples and nested containers around the set (every container has its own code path)
+                           "(set([{}]),)", "[(frozenset([{}]),)]", "{{'k': (set([{}]),)}}", "(1, set([{}]))", "ROW(k=1, v=set([{}]))", "ROW(1, (frozenset([{}]),))",
+                           "{{(frozenset([{}]),): 1}}"])
         out.append((wrap.format(", ".join(el)), wrap.format(", ".join(order2))))
     return out
 
@@ -170,7 +174,10 @@ def run_fmt(item):
         if r["session_exc"] or r["module_exc"]:
             return {"error": f"{setup}: {r['session_exc'] or r['module_exc']}"}
         after = r["files"]["test_a.py"].decode()
-        tree = ast.parse(after)
+        try:
+            tree = ast.parse(after)
+        except SyntaxError as e:
+            return {"error": f"{setup}: the rewritten file is not valid Python ({e}): {after[-300:]!r}"}
         args = []
         for n in ast.walk(tree):
             if isinstance(n, ast.Call) and isinstance(n.func, ast.Name) and n.func.id == "snapshot":
@@ -187,6 +194,13 @@ def formatter_oracle(ctx: Ctx):
         p = proggen.gen_program(ctx.rng, rich=(i % 2 == 0), style="assert", nsites=ctx.rng.randint(1, 4),
                                 opts={"p_missing": 0.5, "p_noncanon": 0.0, "kinds": ["eq", "eq", "in", "getitem"]}, layout={"per_test": 1})
         progs.append(p)
+    # strings INSERTED into an existing list / tuple / `in` list / dict (other code paths than a whole new value): black treats a lone string as a docstring
+    for k, st in enumerate([" lead", "trail ", "  both  ", "it's \"q\"", "'a' \"", "    if x:", "\ttab ", "x\n "]):
+        forms = [f"def test_a():\n    assert ['a', {st!r}, 'b'] == snapshot(['a', 'b'])\n", f"def test_a():\n    for x in ('x', {st!r}):\n        assert x in snapshot(['x'])\n",
+                 f"def test_a():\n    assert ('a', {st!r}) == snapshot(('a',))\n", f"def test_a():\n    assert {{'k': 1, {st!r}: {st!r}}} == snapshot({{'k': 1}})\n",
+                 f"def test_a():\n    s = snapshot({{'k': 1}})\n    assert s['k'] == 1\n    assert s[{st!r}] == {st!r}\n"]
+        progs.append({"source": "from inline_snapshot import snapshot\n\n\n" + forms[k % len(forms)]})
+        progs.append({"source": "from inline_snapshot import snapshot\n\n\n" + forms[(k + 2) % len(forms)]})
     res = pmap(run_fmt, [(p["source"],) for p in progs], chunksize=2)
     for p, r in zip(progs, res):
         ctx.count(("fmt", p["source"]), True, n=3)
